@@ -495,6 +495,48 @@ func UseEmb$N() string {
 	}
 	return strings + strings2 + string(rune('0'+sort+sort2*2+sort3*3)) + string(rune('0'+f(1)))
 }`, `Two$N()`},
+	{"typeswitch-var-and-local-whose-new-names-coincide", `var gx$N, gx$N_ = 100, 200
+
+func Guard$N(v interface{}) int {
+	switch gx$N := v.(type) {
+	case int:
+		{
+			gx$N_ := 10
+			return gx$N + gx$N_
+		}
+	case string:
+		return len(gx$N)
+	}
+	return gx$N + gx$N_
+}`, `{FMT}Sprint(Guard$N(5), Guard$N("abc"), Guard$N(nil))`},
+	{"local-alias-shadowing-a-package-level-name-embedded-in-unnamed-structs", `var ecfg$Nq = 1
+
+func mkEmb$N() interface{} {
+	type ecfg$Nq = int
+	return struct{ ecfg$Nq }{7}
+}
+
+func rdEmb$N(v interface{}) int {
+	type ecfg$Nq = int
+	ecfg$Nq2 := 0
+	_ = ecfg$Nq2
+	s, ok := v.(struct{ ecfg$Nq })
+	if !ok {
+		return -1
+	}
+	return s.ecfg$Nq
+}
+
+type esb$Nq = {STR}Builder
+
+type EP$N struct{ esb$Nq }
+
+func EG$N() EP$N {
+	type esb$Nq = {STR}Builder
+	var x struct{ esb$Nq }
+	x.WriteString("hi")
+	return EP$N(x)
+}`, `func() string { p := EG$N(); return {FMT}Sprint(rdEmb$N(mkEmb$N()), ecfg$Nq, p.Len()) }()`},
 	{"typeswitch-var-spelled-like-the-next-candidate", `func tagfn$Nq(s string) string { return "<" + s + ">" }
 
 func Describe$N(v interface{}) string {
